@@ -327,6 +327,27 @@ def specCase (specs : List Spc) : String × String :=
     ("void f ( ) { " ++ text ++ " }", (nd .FileAST [.list [fdef "f" (identType ["void"]) .none [node]]]).dump false)
   else (text, (nd .FileAST [.list [node]]).dump false)
 
+/-- a function specifier on a declarator that is not syntactically a function: the function type
+comes from a typedef (`typedef int FT ( void ) ; static inline FT x ;` - valid C).  The `Decl` keeps
+the function specifiers although its type is a plain `TypeDecl` -/
+def specCaseTypedefFn (specs : List Spc) : String × String :=
+  let quals := specs.filterMap fun s => match s with | .qual q => some q | _ => none
+  let stor := specs.filterMap fun s => match s with | .storage q => some q | _ => none
+  let fspec := specs.filterMap fun s => match s with | .func q => some q | _ => none
+  -- the type keywords are replaced by the one typedef name, at the place of the first of them
+  let rec repl : List Spc → Bool → List Spc
+    | [], _ => []
+    | .ty _ :: r, false => .ty "FT" :: repl r true
+    | .ty _ :: r, true => repl r true
+    | x :: r, seen => x :: repl r seen
+  let specs' := repl specs false
+  let td := nd .Typedef [.str "FT", strsV [], strsV ["typedef"],
+    nd .FuncDecl [paramsVal .void, typeDecl (some "FT") [] (identType ["int"])]]
+  let node := nd .Decl [.str "x", strsV quals, strsV [], strsV stor, strsV fspec,
+    typeDecl (some "x") quals (identType ["FT"]), .none, .none]
+  ("typedef int FT ( void ) ; " ++ " ".intercalate (specs'.map Spc.tok ++ ["x", ";"]),
+   (nd .FileAST [.list [td, node]]).dump false)
+
 def randSpecs (s : Nat) : List Spc × Nat :=
   let tys := pick typeSets s
   let s1 := lcg s
